@@ -51,6 +51,10 @@ def _build():
     reg.add(S.schema2("diff_cat3_x_cat3", A3, B3, weighted=True), (1, 2), configs=cfgs, quick=2, thorough=3)
     reg.add(S.schema2("diff_cat3_x_mr", A3, M), configs=[{"rows": [d1]}, {"rows": [d2, p1]}], quick=2, thorough=3)
     reg.add(S.schema2("diff_mr_x_cat3", M, B3), configs=[{"cols": [d1]}, {"cols": [d2, p1]}], quick=2, thorough=3)
+    # a response carrying a numeric mean with valid counts: a difference's count is NaN there (C04), so is its
+    # proportion in every direction, hence every variance / error of a difference cell must be NaN
+    reg.add(S.schema2("diff_num_cat3_x_cat3", A3, B3, weighted=True, numeric={"measures": ["mean"], "valid_counts": True}),
+            (1, 2), (None, 1), configs=[{"rows": [d1]}, {"cols": [d1]}, {"rows": [d2, p1], "cols": [p12]}], quick=2, thorough=3)
     reg.add(Schema("diff_cat3_1d", [A3], [("cat", 0)], weighted=True), (1, 2),
             configs=[{"rows": [d1]}, {"rows": [d2, p1]}], quick=3, thorough=5)
     return reg
@@ -169,6 +173,10 @@ def check(space, state):
         ss = SignedSlice(orc, cfg)
         ro, co = ss.display(part)
         stats = [[cell_stats(ss, I, J) for J in co] for I in ro]
+        if sch.numeric:
+            nan3 = (NANF, NANF, NANF)
+            stats = [[{"row": nan3, "col": nan3, "table": nan3} if (ss.is_diff_row(I) or ss.is_diff_col(J)) else st
+                      for J, st in zip(co, row)] for I, row in zip(ro, stats)]
         for d, dname in (("row", "row"), ("col", "column"), ("table", "table")):
             var = [[c[d][1] for c in row] for row in stats]
             sd = [[math.sqrt(v) if v == v else NANF for v in row] for row in var]
